@@ -708,7 +708,8 @@ class Engine:
                 return z3.And(obj_tag(x.t) == TAG_BOOL, obj_bool(x.t) == c)
             return False
         if isinstance(a, Ref) and isinstance(b, Ref):
-            return a.oid == b.oid
+            orig = st.ghost.get("__orig") or {}
+            return orig.get(a.oid, a.oid) == orig.get(b.oid, b.oid)
         if isinstance(a, Opq) and isinstance(b, Opq):
             return a.t == b.t
         if isinstance(a, Native) and isinstance(b, Native):
